@@ -44,3 +44,13 @@ func (engine *Engine) VerifStoredQuality(id thor.Bytes32) (uint32, bool) {
 	}
 	return q, true
 }
+
+// VerifJustifiedGap, if set, is called inside Engine.Justified() between its two loads (best block, finalized
+// checkpoint). A harness uses it to suspend the calling goroutine there - a schedule the Go runtime is free to produce.
+var VerifJustifiedGap func()
+
+func verifJustifiedGap() {
+	if f := VerifJustifiedGap; f != nil {
+		f()
+	}
+}
